@@ -650,7 +650,7 @@ Proof.
   set (pos := filter show (filter (fun a => negb (is_some (ha_heading a))) (filter ha_is_positional (hc_args c)))).
   set (non_pos := filter show (filter (fun a => negb (is_some (ha_heading a))) (filter (fun a => negb (ha_is_positional a)) (hc_args c)))).
   assert (Hs1 : exists s1, (if has_visible_subcommands c
-            then match write_subcommands dw cx c with Some rows => Some [mkSec s_commands rows] | None => None end
+            then match write_subcommands dw cx c with Some rows => Some [mkSec (sub_section_title c) rows] | None => None end
             else Some []) = Some s1 /\ secs_ok (cx_use_long cx) c s1).
   { destruct (has_visible_subcommands c).
     - destruct (write_subcommands_spec dw cx c (proj2 Hc)) as [rows [Hrows Hr]]. rewrite Hrows.
@@ -991,7 +991,7 @@ Qed.
 Lemma lists_visible_sub cx c secs sc :
   NoDup (map sc_str (hc_subs c)) -> write_all_args dw cx c = Some secs ->
   In sc (hc_subs c) -> hc_hide sc = false -> hc_name sc <> s_help ->
-  exists sec r, In sec secs /\ s_title sec = s_commands /\ In r (s_rows sec) /\ r_id r = hc_name sc.
+  exists sec r, In sec secs /\ s_title sec = sub_section_title c /\ In r (s_rows sec) /\ r_id r = hc_name sc.
 Proof.
   intros Hnd H Hsc Hh Hn. unfold write_all_args in H.
   assert (Hv : has_visible_subcommands c = true).
@@ -1004,7 +1004,7 @@ Proof.
   destruct (heading_sections dw cx c (custom_headings c)) as [s4|]; [|discriminate].
   inversion H; subst secs.
   destruct (write_subcommands_lists cx c rows sc Hnd Erows Hsc Hh) as [r [Hr Hid]].
-  exists (mkSec s_commands rows), r. split; [left; reflexivity|]. auto.
+  exists (mkSec (sub_section_title c) rows), r. split; [left; reflexivity|]. auto.
 Qed.
 
 End P4.
@@ -1085,7 +1085,7 @@ Qed.
 Theorem lists_visible_subs c use_long w s sc :
   NoDup (map sc_str (hc_subs c)) -> write_help dw c use_long w = Some s ->
   In sc (hc_subs c) -> hc_hide sc = false -> hc_name sc <> s_help ->
-  exists sec r, In sec (scr_sections s) /\ s_title sec = s_commands /\ In r (s_rows sec) /\ r_id r = hc_name sc.
+  exists sec r, In sec (scr_sections s) /\ s_title sec = sub_section_title c /\ In r (s_rows sec) /\ r_id r = hc_name sc.
 Proof.
   intros Hnd E Hsc Hh Hn. unfold write_help in E.
   destruct (usage_pieces c); [|discriminate].
